@@ -471,5 +471,7 @@ func (r *runner) sortStage() {
 			}
 		}
 	}
-	c.Feature("enumerated", int64(idx))
+	if c.Batch == 0 {
+		c.Feature("enumerated", int64(idx))
+	}
 }
